@@ -78,6 +78,12 @@ def ladder(pb: float) -> list[tuple[float, str, int]]:
 
 
 STYLES = ("float", "npfloat", "ascending", "descending", "outwards")
+# further ways in which one and the same ladder reaches the library; they are measured IN ADDITION to the oil's own style (the
+# oil is listed a second time with the style as a fifth entry), so the assignment of the five styles above does not move:
+#   field2d : the ladder as a column-major 2-d pressure field (8 x 14 nodes of a simulation grid, Fortran order)
+#   facade  : through bluebonnet.fluids.fluid.Fluid (oil_FVF, oil_viscosity) on a column in which every pressure occurs twice
+#             (a production history revisits pressures); R_s, density and c_o, which the facade does not offer, from the module
+EXTRA_STYLES = ("field2d", "facade")
 
 
 def style_of(o) -> tuple[str, bool]:
@@ -93,8 +99,10 @@ def style_of(o) -> tuple[str, bool]:
 def measure_ladder(o) -> dict:
     """Evaluate the library along the ladder of oil o = (T, API, gg, R) in the call style style_of(o)."""
     oil = _oil()
-    t, a, g, r = o
-    style, int_gor = style_of(o)
+    t, a, g, r = o[:4]
+    style, int_gor = style_of(o[:4])
+    if len(o) > 4:
+        style, int_gor = o[4], False
     if int_gor:
         r = int(round(r))   # a Python int
     pb = float(oil.pressure_bubblepoint_Standing(t, a, g, r))
@@ -108,10 +116,41 @@ def measure_ladder(o) -> dict:
         tt = t if style == "float" else np.float64(t)
         for nm, f in names:
             vals[nm] = [float(f(tt, conv(p), a, g, r)) if (nm != "co" or side != "below") else math.nan for p, side, _ in pts]
+    elif style == "facade":
+        from bluebonnet.fluids.fluid import Fluid  # noqa: PLC0415
+
+        fl = Fluid(t, a, g, r)
+        twice = np.repeat(np.array(ps, dtype=float), 2)   # p0 p0 p1 p1 ...
+        col = np.concatenate([twice[0::2], twice[1::2][::-1]])   # every pressure twice: ascending, then descending
+        n = len(ps)
+
+        def both(f):
+            """the column through f; the two answers for one pressure must be the same number (to 1e-13: vector lanes may round differently),
+            else not-a-number is judged"""
+            try:
+                with warnings.catch_warnings():
+                    warnings.simplefilter("ignore")
+                    got = np.asarray(f(col.copy()), dtype=float).reshape(-1)
+                if got.shape != col.shape:
+                    raise ValueError("shape")
+            except Exception:  # noqa: BLE001
+                return [math.nan] * n
+            first, second = got[:n], got[n:][::-1]
+            return [float(x) if abs(x - y) <= 1e-13 * abs(x) else math.nan for x, y in zip(first, second)]
+
+        vals["bo"] = both(fl.oil_FVF)
+        vals["mu"] = both(fl.oil_viscosity)
+        vals["rs"] = both(lambda c: oil.solution_gor_Standing(t, c, a, g, r))
+        vals["rho"] = both(lambda c: oil.density_Standing(t, c, a, g, r))
+        vals["co"] = both(lambda c: oil.oil_compressibility_undersat_Spivey(t, c, a, g, r))
     else:
-        order = {"ascending": np.arange(len(ps)), "descending": np.arange(len(ps))[::-1],
-                 "outwards": np.argsort(np.abs(np.array(ps) - pb), kind="stable")}[style]
-        arr = np.array(ps, dtype=float)[order]
+        if style == "field2d":
+            order = np.arange(len(ps))
+            arr = np.asfortranarray(np.array(ps, dtype=float).reshape(8, len(ps) // 8))
+        else:
+            order = {"ascending": np.arange(len(ps)), "descending": np.arange(len(ps))[::-1],
+                     "outwards": np.argsort(np.abs(np.array(ps) - pb), kind="stable")}[style]
+            arr = np.array(ps, dtype=float)[order]
         # every routine is called twice on the grid, the second round after all the others have been called with the same fluid
         # and grid (a table builder asks for Rs, Bo, density, then Bo again for another column): the later answer is judged
         for nm, f in names + names[:3]:
@@ -119,11 +158,16 @@ def measure_ladder(o) -> dict:
                 with warnings.catch_warnings():
                     warnings.simplefilter("ignore")
                     if nm == "mu":   # a scalar routine (the facade vectorises it): looped over the grid, elements are numpy scalars
-                        got = np.array([float(f(t, p, a, g, r)) for p in arr.copy()], dtype=float)
+                        got = np.array([float(f(t, p, a, g, r)) for p in arr.reshape(-1)], dtype=float).reshape(arr.shape)
+                    elif nm == "co" and arr.ndim > 1:
+                        # c_o takes columns only (it raises on a 2-d field, and b_o_Standing hands it a flat selection):
+                        # not part of the property, so the nodes of the field go in as one column
+                        got = np.asarray(f(t, arr.reshape(-1), a, g, r), dtype=float).reshape(arr.shape)
                     else:
-                        got = np.asarray(f(t, arr.copy(), a, g, r), dtype=float)
+                        got = np.asarray(f(t, arr.copy(order="K"), a, g, r), dtype=float)
                 if got.shape != arr.shape:
                     raise ValueError(f"shape {got.shape} for {arr.shape}")
+                got = got.reshape(-1)   # C order of the nodes = order of the ladder
             except Exception:  # noqa: BLE001  an array call that fails has no values: judged as not finite
                 got = np.full(len(ps), np.nan)
             back = np.empty(len(ps))
